@@ -416,6 +416,11 @@ func allocEscapes(a *ssa.Alloc) bool {
 				if x.X == v && esc(x) {
 					return true
 				}
+			case *ssa.MakeClosure:
+				// captured by a closure that only reads it (loads, field/element reads)
+				if v != ssa.Value(a) || !readOnlyObjCapture(x, a) {
+					return true
+				}
 			default:
 				return true
 			}
@@ -423,6 +428,51 @@ func allocEscapes(a *ssa.Alloc) bool {
 		return false
 	}
 	return esc(a)
+}
+
+// readOnlyObjCapture: like readOnlyCapture for a struct/array variable: inside the closure the captured
+// address is only loaded from, directly or through field / element addresses.
+func readOnlyObjCapture(mc *ssa.MakeClosure, a *ssa.Alloc) bool {
+	fn, ok := mc.Fn.(*ssa.Function)
+	if !ok {
+		return false
+	}
+	var readOnly func(v ssa.Value, depth int) bool
+	readOnly = func(v ssa.Value, depth int) bool {
+		refs := v.Referrers()
+		if refs == nil || depth > 6 {
+			return false
+		}
+		for _, r := range *refs {
+			switch x := r.(type) {
+			case *ssa.DebugRef:
+			case *ssa.UnOp:
+				if x.Op != token.MUL {
+					return false
+				}
+			case *ssa.FieldAddr:
+				if !readOnly(x, depth+1) {
+					return false
+				}
+			case *ssa.IndexAddr:
+				if x.X != v || !readOnly(x, depth+1) {
+					return false
+				}
+			default:
+				return false
+			}
+		}
+		return true
+	}
+	for i, b := range mc.Bindings {
+		if b != a {
+			continue
+		}
+		if i >= len(fn.FreeVars) || !readOnly(fn.FreeVars[i], 0) {
+			return false
+		}
+	}
+	return true
 }
 
 // storeFamilies records which heap families a store through addr may change.
@@ -1789,31 +1839,14 @@ func (fx *FnExec) reprEq(t types.Type, a, b Val) *Term {
 	return nil
 }
 
-// readOnlyCapture: the variable a is captured by the closure mc, the closure only ever reads it, and the
-// closure value itself is used only as the function of a defer or of a direct call in the enclosing
-// function (so it cannot run concurrently with, or outlive, the enclosing frame's own accesses).
+// readOnlyCapture: the variable a is captured by the closure mc and the closure body only ever loads it.
 func readOnlyCapture(mc *ssa.MakeClosure, a *ssa.Alloc) bool {
 	fn, ok := mc.Fn.(*ssa.Function)
 	if !ok {
 		return false
 	}
-	if refs := mc.Referrers(); refs != nil {
-		for _, r := range *refs {
-			switch x := r.(type) {
-			case *ssa.DebugRef:
-			case *ssa.Defer:
-				if x.Call.Value != mc {
-					return false
-				}
-			case *ssa.Call:
-				if x.Call.Value != mc {
-					return false
-				}
-			default:
-				return false
-			}
-		}
-	}
+	// Where the closure value goes does not matter: only the closure holds the variable's address, and if
+	// its body never stores through it nor passes it on, nobody but the enclosing function changes the variable.
 	for i, b := range mc.Bindings {
 		if b != a {
 			continue
